@@ -67,10 +67,10 @@ def strat_theta(tier):
 
 
 def strat_theta_large(tier):
-    """the same statement on a few LARGE systems (700 and 2100 unknowns), uniform and non-uniform meshes"""
+    """the same statement on a few LARGE systems (500 and 1000 unknowns), uniform and non-uniform meshes"""
     _ex, im = cases.integrator_names()
     mesh = st.builds(lambda n, kind, L: (dict(kind="uni", n=n, length=L, x0=0.0) if kind == 0 else dict(kind="morph", n=n, length=L, x0=0.0, law="sine", param=0.5)),
-                     st.sampled_from([700, 2100]), st.integers(0, 1), gen.logf(-1, 1))
+                     st.sampled_from([500, 1000]), st.integers(0, 1), gen.logf(-1, 1))
     return st.builds(lambda md, me, num, fld, integ, cfl, ns: dict(model=md, mesh=me, num=num, field=fld, integ=integ, cfl=cfl, nsteps=ns, local=False),
                      gen.model_convection(), mesh, _linear_nums(), gen.prof_fourier(gen.f(-1, 1), gen.f(0.1, 1)), st.sampled_from(im), st.one_of(gen.logf(-1, 2), gen.f(4, 40)), st.integers(1, 2))
 
